@@ -8,22 +8,9 @@ statement on a concrete input.
 namespace Sunrise.C15.Witness
 open Sunrise Sunrise.Untrusted
 
-/-- nil_strategy_payload: `(&Route{Strategy: &Route_Pool{Pool: nil}}).Validate()` dereferences nil in mustNotReusePool
-    (the recover block re-panics).  Not reachable from protobuf wire bytes; reachable from a memo (`"pool": null`) only
-    before the ibc.go fix, which rejects such routes in SwapMetadata.Validate. -/
-theorem route_validate_panics_on_nil_pool_payload : (Route.validate (some (.poolNil "a" "b"))).isPanic = true := by decide
-
-theorem route_validate_panics_on_nil_series_payload : (Route.validate (some (.seriesNil "a" "b"))).isPanic = true := by decide
-
-theorem route_validate_panics_on_nested_nil_parallel_payload :
-    (Route.validate (some (.series "a" "b" [.pool "a" "c" 1, .parallelNil "c" "b"]))).isPanic = true := by decide
-
-/-- nil_receiver: `(*Route)(nil).Validate()` -/
-theorem route_validate_panics_on_nil_receiver : (Route.validate none).isPanic = true := by decide
-
-/-- so the hypothesis of `route_validate_no_panic_partial` cannot be dropped -/
-theorem route_validate_full_statement_is_false : ¬ ∀ r : Option Route, (Route.validate r).isPanic = false := by
-  intro h; have := h none; simp [Route.validate, Res.isPanic] at this
+/-! The nil-payload / nil-receiver / invalid-denom witnesses of `Route.Validate` were removed when route.go was fixed
+    (commits "fix: Route.Validate returns an error for a nil route…", "fix: Route.Validate rejects invalid denoms…"):
+    the full-strength theorem `route_validate_no_panic` in Props/C15.lean replaces them. -/
 
 /-- S3 as the code is before the C03 engineer's fix: `panic(fmt.Sprintf("reused pool…"))` is recovered, `r.(error)` on a
     string fails (second panic): Validate panics instead of returning an error. -/
